@@ -440,17 +440,25 @@ func c06Check(prop, tier string) int {
 		}
 	}
 	// cluster part: log matching between persistent logs in every state of cluster runs
-	clusterPlans := []plan{{"rep3-d2", 40}, {"net3-d2", 30}}
+	// (filesnap3: on the real file-backed log, where a log that no longer
+	// matches what was acknowledged shows at the next restart: C14/restart-failed)
+	clusterPlans := []plan{{"rep3-d2", 40}, {"net3-d2", 30}, {"filesnap3-d2", 60}}
 	if tier == "thorough" {
-		clusterPlans = []plan{{"rep3-d3", 120}, {"net3-d3", 120}, {"crash3-d2", 60}}
+		clusterPlans = []plan{{"rep3-d3", 120}, {"net3-d3", 120}, {"crash3-d2", 60}, {"filesnap3-d3", 400}}
 	}
 	var cstates, ctrans uint64
 	for _, pl := range clusterPlans {
 		s := lookupSuite(pl.suite)
-		res, err := explore.RunSuite(s, explore.Options{Deadline: time.Now().Add(time.Duration(pl.secs) * time.Second)})
+		res, err := explore.RunSuite(s, explore.Options{Deadline: time.Now().Add(time.Duration(pl.secs) * time.Second), Props: []string{prop, "C14"}})
 		if err != nil {
 			fmt.Println("INFRA:", err)
 			return 2
+		}
+		for _, f := range res.Founds {
+			if f.V.Property == "C14" {
+				f.V.Signature = "C14/" + f.V.Signature
+				f.V.Property = prop
+			}
 		}
 		cstates += res.Distinct
 		ctrans += res.Stats.Transitions
